@@ -326,6 +326,13 @@ def check_tree(tree, rng, V, C):
         other = build(other_tree)
         if comp == other:
             viol("different_trees_equal", "equality_not_structural", {"other": text(other_tree)})
+        # operand order is part of the structure: the tree with the two operands of its root swapped is another expression
+        # (a - b is not b - a; for + and * the VALUES agree but the trees still differ unless both operands are the same)
+        if tree[0] == "op" and text(tree[2]) != text(tree[3]):
+            swapped = ("op", tree[1], tree[3], tree[2])
+            C["swapped_operand_equality_checks"] = C.get("swapped_operand_equality_checks", 0) + 1
+            if tree[1] in ("-", "/", "**") and comp == build(swapped):
+                viol("swapped_operands_equal", "equality_not_structural", {"op": tree[1], "swapped": text(swapped)})
         # a tree that differs in one leaf which merely PRINTS the same (same function name, other function)
         if "P2" in text(tree):
             import tdgl
